@@ -42,7 +42,8 @@ func TestVerifV2Conc(t *testing.T) {
 		pick("License/BSD-2-Clause/license.txt"), pick("License/GPL-2.0/license.txt")}
 	var inputs [][]byte
 	for _, b := range base {
-		inputs = append(inputs, b, vt.editWords(c, b, 0.03), append(append(vt.oovBlock(c, 2), b...), vt.oovBlock(c, 2)...))
+		inputs = append(inputs, b, vt.editWords(c, b, 0.03), append(append(vt.oovBlock(c, 2), b...), vt.oovBlock(c, 2)...),
+			append(append([]byte("This work is in the public domain.\n"), b...), []byte("\nAll rights reserved.\n")...)) // the tiny documents are candidates of many concurrent calls
 	}
 	inputs = append(inputs, []byte("This work is in the public domain.\nAll rights reserved by nobody.\n"))
 	n := vuEnvInt("VERIF_GOROUTINES", 8)
